@@ -283,7 +283,13 @@ func (x *Exec) builtin(st *State, e *ast.CallExpr, name string) []Val {
 			ks := x.scalarSort(u.Key())
 			dom := c.Select(x.heapGet(st, "MD."+typeKey(t), SArr(SInt, SArr(ks, SBool))), v.T)
 			fn := "maplen_" + sanitize(string(ks))
-			c.DeclareFun(fn, []Sort{SArr(ks, SBool)}, x.idxSort())
+			if _, ok := c.funcs[fn]; !ok {
+				c.DeclareFun(fn, []Sort{SArr(ks, SBool)}, x.idxSort())
+				// a map with a key has positive length
+				d := c.Bound("d", SArr(ks, SBool))
+				k := c.Bound("k", ks)
+				c.AddAxiom(fn, c.Forall([]*Term{d, k}, c.Implies(c.Select(d, k), x.idxLt(x.idxLit(0), c.App(fn, d))), []*Term{c.Select(d, k), c.App(fn, d)}))
+			}
 			n := c.App(fn, dom)
 			x.assumeGlobal(st, x.idxLe(x.idxLit(0), n))
 			return []Val{{Typ: intT, T: c.Ite(c.Eq(v.T, c.Int(0)), x.idxLit(0), n)}}
@@ -633,7 +639,10 @@ func (x *Exec) callContract(st *State, con *Contract, recv *Val, args []Val, e *
 	for i := 0; i < sig.Results().Len(); i++ {
 		r := sig.Results().At(i)
 		var v Val
-		if isObjType(r.Type()) || con.freshResult(i, r) {
+		if isSliceT(r.Type()) && con.freshResult(i, r) {
+			v = x.freshVal(st, fmt.Sprintf("%s_res%d", con.Fn.Name(), i), r.Type())
+			v.Arr = x.allocRef(st, "res")
+		} else if isObjType(r.Type()) || con.freshResult(i, r) {
 			v = Val{Typ: r.Type(), T: x.allocRef(st, "res")}
 		} else {
 			v = x.freshVal(st, fmt.Sprintf("%s_res%d", con.Fn.Name(), i), r.Type())
